@@ -12,11 +12,18 @@ import (
 	"runtime"
 	"sync"
 	"testing"
+	"time"
 
+	"github.com/go-i2p/common/base32"
+	"github.com/go-i2p/common/base64"
+	"github.com/go-i2p/common/certificate"
 	"github.com/go-i2p/common/data"
+	"github.com/go-i2p/common/destination"
 	"github.com/go-i2p/common/key_certificate"
+	"github.com/go-i2p/common/lease"
 	"github.com/go-i2p/common/lease_set2"
 	"github.com/go-i2p/common/offline_signature"
+	"github.com/go-i2p/common/router_address"
 	"github.com/go-i2p/common/signature"
 	"pgregory.net/rapid"
 
@@ -27,7 +34,7 @@ import (
 	"verif/internal/model"
 )
 
-const rule = "cases: a shared value of each structure type (certificate, key certificate with known, reserved and unknown type codes, keys-and-cert, destination, router identity, router address, RouterInfo, LeaseSet, LeaseSet2 with options and offline block, MetaLeaseSet, EncryptedLeaseSet, offline signature, signature, mapping, lease, Lease2; parsed from a fixed-shape model encoding derived from a seed or (half of the cases) from an encoding drawn from the structure generators of C01/C02 - every key type, flag combination, option set, offline block, lease order -, and for identities / LeaseSet2 also built through the constructors) x 2..16 goroutines, each running a generated list of 5..40 read-only operations drawn from {every exported argument-free method of the value (serialise, hash, addresses, validate, verify, accessors), size-table lookups, parsing other data} with generated runtime.Gosched points behind a start barrier; binary built with -race. Oracle: the race detector reports nothing (a report ends the process and the pending case file is the replay), every concurrent result equals the result of the same operation computed sequentially before the fan-out, and the serialisation is unchanged afterwards. Schedules are sampled, not enumerated. Non-trivial: >= 2 goroutines executed at least one common operation on the same value; distinct by (target, operation lists)."
+const rule = "cases: a shared value of each structure type (certificate, key certificate with known, reserved and unknown type codes, keys-and-cert, destination, router identity, router address, RouterInfo, LeaseSet, LeaseSet2 with options and offline block, MetaLeaseSet, EncryptedLeaseSet, offline signature, signature, mapping, lease, Lease2; parsed from a fixed-shape model encoding derived from a seed or (half of the cases) from an encoding drawn from the structure generators of C01/C02 - every key type, flag combination, option set, offline block, lease order -, and for identities / LeaseSet2 also built through the constructors) x 2..16 goroutines, each running a generated list of 5..40 read-only operations drawn from {every exported argument-free method of the value (serialise, hash, addresses, validate, verify, accessors), size-table lookups, parsing other data, the base32/base64 codecs, the integer / date / string / hash helpers, constructors of certificates, key certificates, router addresses and leases} with generated runtime.Gosched points behind a start barrier; binary built with -race. Oracle: the race detector reports nothing (a report ends the process and the pending case file is the replay), every concurrent result equals the result of the same operation computed sequentially before the fan-out, and the serialisation is unchanged afterwards. Schedules are sampled, not enumerated. Non-trivial: >= 2 goroutines executed at least one common operation on the same value; distinct by (target, operation lists)."
 
 func TestMain(m *testing.M) {
 	lib.NoSerial = true // shared values reach the goroutines without any method having been called on them
@@ -214,6 +221,8 @@ var otherData = func() []byte {
 	return m.Encode()
 }()
 
+var otherAddr = gen.AddrSpec{Cost: 4, Style: "4e54435032", Options: gen.Pairs{{"686f7374", "312e322e332e34"}, {"706f7274", "3830"}}}.Build().Encode()
+
 func operations(v any) []op {
 	var ops []op
 	rv := reflect.ValueOf(v)
@@ -258,6 +267,48 @@ func operations(v any) []op {
 			}
 			b, _ := ls.Bytes()
 			return fmt.Sprintf("%d %x", len(rem), b[:8])
+		}},
+		op{"base-codecs", func() string {
+			raw := otherData[:61]
+			e32, e64 := base32.EncodeToString(raw), base64.EncodeToString(raw)
+			d32, err1 := base32.DecodeString(e32)
+			d64, err2 := base64.DecodeString(e64)
+			u32, err3 := base32.DecodeStringNoPadding(base32.EncodeToStringNoPadding(raw))
+			return fmt.Sprintf("%s %s %x %x %x %v %v %v", e32[:8], e64[:8], d32[:4], d64[len(d64)-4:], u32[:4], err1, err2, err3)
+		}},
+		op{"integers-dates-strings", func() string {
+			a, _ := data.EncodeIntN(0x1234, 3)
+			b, _ := data.EncodeIntN(7, 1)
+			i, _ := data.NewIntegerFromInt(65535, 2)
+			n, _ := data.DecodeIntN([]byte{1, 2, 3})
+			d, _ := data.NewDateFromMillis(1700000000123)
+			st, _ := data.NewI2PString("caps")
+			h := data.HashData(otherData[:40])
+			return fmt.Sprintf("%x %x %x %d %x %x %x %x", a, b, i.Bytes(), n, d.Bytes(), []byte(st), h[:4], data.EncodeUint32(77))
+		}},
+		op{"constructors", func() string {
+			kc, err1 := key_certificate.NewKeyCertificateWithTypes(7, 4)
+			ce, err2 := certificate.NewCertificateWithType(5, []byte{0, 7, 0, 4, 9})
+			ra, err3 := router_address.NewRouterAddress(3, time.Unix(0, 0), "NTCP2", map[string]string{"host": "1.2.3.4", "port": "99"})
+			l2, err4 := lease.NewLease2(data.Hash{1, 2, 3}, 5, time.Unix(1700000000, 0))
+			if err1 != nil || err2 != nil || err3 != nil || err4 != nil {
+				return fmt.Sprint(err1, err2, err3, err4)
+			}
+			return fmt.Sprintf("%x %x %x %x", kc.Bytes(), ce.Bytes(), ra.Bytes(), l2.Bytes())
+		}},
+		op{"parse-identity-and-address", func() string {
+			d, rem, err := destination.ReadDestination(otherData)
+			if err != nil {
+				return "err"
+			}
+			a, _ := d.Base32Address()
+			h, _ := d.Hash()
+			ra, _, err := router_address.ReadRouterAddress(otherAddr)
+			if err != nil {
+				return "err2"
+			}
+			hs, _ := ra.Host()
+			return fmt.Sprintf("%d %s %x %v %s", len(rem), a, h[:4], hs, ra.PortString())
 		}},
 		op{"mapping-other", func() string {
 			m, err := data.GoMapToMapping(map[string]string{"b": "2", "a": "1", "c": ""})
